@@ -13,7 +13,7 @@ def run(rep, tier):
 
     rep.encoded(sc.generate_result_scalar_annotation, sc.generate_input_scalar_annotation, sc.generate_scalar_imports, sc.ScalarData.__post_init__,
                 parse_scalar_type, parse_input_field_type, ArgumentsGenerator._get_dict_value)
-    fns = ["check_results", "check_arguments", "check_inputs", "check_nested_results", "check_abstract_results", "check_falsy_values", "check_parse_is_type", "check_scalars_in_multipart", "check_config_variants", "twin_parse_twice_reached"]
+    fns = ["check_results", "check_arguments", "check_inputs", "check_nested_results", "check_abstract_results", "check_falsy_values", "check_same_named_functions", "check_parse_is_type", "check_scalars_in_multipart", "check_config_variants", "twin_parse_twice_reached"]
     res = xh.run_targets([f"{MOD}.{f}" for f in fns], timeout=600 if tier == "quick" else 2400)
     xh.fold(rep, MOD, res)
     rep.coverage.update({
